@@ -1,5 +1,47 @@
 """C03: shutdown() flushes everything before FIN; forceClose() closes at once, safely."""
+import re
 import connlib
+import vlib
+
+FC1 = re.compile(r"^fc-drop alive_after_request=(\d)$")
+FC2 = re.compile(r"^fc-drop alive_until_functor=(\d) down=(\d+) close=(\d+) destroyed_after=(\d)$")
+FCD = re.compile(r"^fcd-drop destroyed_before_timer=(\d) down=(\d+) timer_fired_quietly=1$")
+
+
+def fcref_part(chk):
+    """Failing-input finder for the structure facts forceClose_queues_strong_ref / forceCloseWithDelay_holds_weak_ref
+    (Conn_GenTieLife.source_structure_life) on the real TcpConnection under ASan (harness/C03_fcref.cc):
+    forceClose() followed by the release of the last user reference still brings the connection DOWN exactly once;
+    a delayed forced close whose timer outlives the connection fires as a no-op."""
+    exe = vlib.build_driver("C03_fcref", ["C03_fcref.cc"], variant="asan", components=("base", "net"))
+    rc, so, se = vlib.sh2([exe], timeout=60, env={"ASAN_OPTIONS": "detect_leaks=0:abort_on_error=0", "UBSAN_OPTIONS": "print_stacktrace=1"})
+    chk.cov["evaluations"] += 1
+    lines = [l for l in so.split("\n") if l.strip()]
+    m1 = FC1.match(lines[0]) if len(lines) > 0 else None
+    m2 = FC2.match(lines[1]) if len(lines) > 1 else None
+    m3 = FCD.match(lines[2]) if len(lines) > 2 else None
+    bad = None
+    if not (m1 and m1.group(1) == "1"):
+        bad = "forceClose() did not leave the connection alive after the request (or the probe crashed before its first line)"
+    elif not m2:
+        bad = ("after forceClose() the caller released the last user reference while forceCloseInLoop was still queued and the process "
+               "died (rc=%s: %s): the queued functor does not own the connection, DOWN is never delivered" % (rc, (se.strip().split("\n") or [""])[0][:200]))
+    elif m2.group(1) != "1" or m2.group(2) != "1" or m2.group(3) != "1":
+        bad = ("after forceClose() the caller released the last user reference while forceCloseInLoop was still queued: alive until the functor ran=%s, "
+               "DOWN callbacks=%s (must be exactly 1), close callbacks=%s" % (m2.group(1), m2.group(2), m2.group(3)))
+    elif not m3 or rc != 0:
+        bad = "forceCloseWithDelay(1.0) whose timer outlives the (closed and destroyed) connection did not fire quietly (rc=%s: %s)" % (rc, (se.strip().split("\n") or [""])[0][:200])
+    elif m3.group(2) != "1":
+        bad = "delayed forced close: DOWN callbacks=%s (must be exactly 1)" % m3.group(2)
+    if m2 and m3:
+        chk.cov["forced_close_reference_probe"] = {"fc_alive_until_functor": m2.group(1) == "1", "fc_down": int(m2.group(2)), "fc_close": int(m2.group(3)),
+                                                   "fc_destroyed_after": m2.group(4) == "1", "fcd_destroyed_before_timer": m3.group(1) == "1", "fcd_down": int(m3.group(2))}
+    if bad:
+        p = chk.write_replay("fcref_probe.txt", "# harness/C03_fcref.cc (no input; run it against the tree, ASan build)\n# %s\n--- stdout ---\n%s\n--- stderr (head) ---\n%s\n"
+                             % (bad, so, se[:3000]))
+        chk.violation(p, "C03 fails on the implementation: " + bad)
+    chk.add_obligation("forced-close reference probe on the real TcpConnection (ASan): forceClose() + release of the last user reference still delivers DOWN exactly once; "
+                       "a delayed forced close that outlives the connection fires as a no-op (harness/C03_fcref.cc; source_structure_life)", not bad)
 
 
 def nontrivial(c, tr):
@@ -15,7 +57,7 @@ def nontrivial(c, tr):
 def run(chk, replay=None):
     return connlib.run_property(
         chk, "C03", connlib.oracle_c03, ["close", "close", "mixed"], 1500, 24000, replay=replay,
-        nontrivial=nontrivial, races=True,
+        nontrivial=nontrivial, races=True, extra=fcref_part,
         rule="corpus (incl. the F-6 and F-19 witnesses) + random sequences mixing sends (loop/foreign) with shutdown()/forceClose()/forceCloseWithDelay()/peer close in all orders, "
              "backlogs from empty to MBs at the moment of shutdown; shutdown()/forceClose() also issued on real foreign threads cut at their load / store / hand-off "
              "(XRC/XRS/XRE), at low frequency with a loop-thread close between load and store (F-19); non-trivial = contains a shutdown or forced close; distinct by (op kinds, FIN seen, DOWN seen, backlog at shutdown)")
